@@ -711,7 +711,7 @@ def run(ctx):
     if ctx.tier == "quick":
         run_n(ctx, 75, 5, n_loops=19)
     else:
-        run_n(ctx, 360, 10, n_loops=120)
+        run_n(ctx, 360, 10, n_loops=90)
 
 
 def replay(ctx, doc):
